@@ -58,14 +58,30 @@ WithDefaults(ns, e) == DefineAll(DefineAll(ns, DefsL(e), OpenL(<<>>)), Defs(e) \
 RuleOk(p, val) == [k |-> "ok", p |-> p, val |-> val]
 \* C12: with parse information on, a dict-like rule value carries (rule, start after leading whitespace, end) of every rule
 \* that returned it (a rule whose value is another rule's dict returns the same AST)
-WithInfo(v, name, q, e) == IF v.t = "d" /\ "parseinfo" \in DOMAIN Cfg /\ Cfg.parseinfo
+WithInfo(v, name, q, e) == IF v.t \in {"d", "o"} /\ "parseinfo" \in DOMAIN Cfg /\ Cfg.parseinfo
                            THEN [v EXCEPT !.pi = Append(@, [rule |-> name, pos |-> q, end |-> e])] ELSE v
 
 \* ---------------------------------------------------------------- semantic actions (C06): a finite family
 FlatHasB(v) == \/ (v.t = "s" /\ v.v = <<"b">>)
                \/ (v.t = "d" /\ \E i \in 1..Len(v.v) : v.v[i][2].t = "s" /\ v.v[i][2].v = <<"b">>)
+\* C07: ModelBuilderSemantics - a rule annotated  name::T::Base...  yields an instance of T (bases as declared); its attributes are the
+\* rule's named elements, or the single attribute ast when there are none; builtin type names convert the value
+DigitVal(c) == CASE c = "0" -> 0 [] c = "1" -> 1 [] c = "2" -> 2 [] c = "3" -> 3 [] c = "4" -> 4 [] c = "5" -> 5 [] c = "6" -> 6
+                 [] c = "7" -> 7 [] c = "8" -> 8 [] c = "9" -> 9 [] OTHER -> 0
+RECURSIVE StrToInt(_, _)
+StrToInt(s, acc) == IF s = <<>> THEN acc ELSE StrToInt(Tail(s), acc * 10 + DigitVal(Head(s)))
+Builtins == {"int", "str", "list", "bool"}
+MkNode(typ, val) ==
+  LET cls == typ[1] IN
+  IF cls = "int" THEN (IF val.t = "s" THEN Int(StrToInt(val.v, 0)) ELSE val)
+  ELSE IF cls = "str" THEN val
+  ELSE IF cls = "list" THEN (IF val.t = "l" THEN val ELSE IF val.t = "s" THEN ClosedL([i \in 1..Len(val.v) |-> Str(<<val.v[i]>>)]) ELSE val)
+  ELSE IF cls = "bool" THEN Bool(~(val.t = "n" \/ (val.t \in {"s", "l"} /\ val.v = <<>>)))
+  ELSE Obj(cls, Tail(typ), IF val.t = "d" THEN val.v ELSE <<<<"ast", val>>>>)
+
 Act(name, val) ==
   CASE Cfg.act \in {"none", "id"} -> [k |-> "ok", v |-> val]
+    [] Cfg.act = "model" -> [k |-> "ok", v |-> IF RuleRec(name).typ = <<>> THEN val ELSE MkNode(RuleRec(name).typ, val)]
     [] Cfg.act = "tag"   -> [k |-> "ok", v |-> IF name = Cfg.actrule \/ Cfg.actrule = "*" THEN Tagged(name, val) ELSE val]
     [] Cfg.act = "failb" -> IF (name = Cfg.actrule \/ Cfg.actrule = "*") /\ FlatHasB(val) THEN [k |-> "failsem"] ELSE [k |-> "ok", v |-> val]
     [] Cfg.act = "raise" -> IF (name = Cfg.actrule \/ Cfg.actrule = "*") /\ FlatHasB(val) THEN [k |-> "raise"] ELSE [k |-> "ok", v |-> val]
